@@ -17,15 +17,17 @@ CHECKS = {
            "matrix satisfies its port relation of vnaconv(3) (n ports) for exactly the states satisfying the input's, with "
            "hypotheses on the input only (the factored matrix I-S, S Z0+Z0*, Z+Z0, I+Z0 Y, Z, Y has a trivial kernel; k_j <> 0; "
            "z_j + conj z_j <> 0), stated at Q[i] where C19's theorem discharges the pivot hypothesis (abstract-field versions with "
-           "`pivots nonzero` as premise in Conv/ConvNModel.v), with a 3-port non-vacuity example; the model is proved equal to the "
+           "`pivots nonzero` as premise in Conv/ConvNModel.v), with a 3-port non-vacuity example; for the three input-impedance functions stozin/ztozin/ytozin and ALL n "
+           "(c04_*zin_phys_all_n): in every state of the network in which all ports but t are terminated in their reference impedance "
+           "(a_j = 0), v_t = zi_t i_t for the vector zi the model returns (hypotheses: the divisor 1 - s_tt resp. x_tt is non-zero, "
+           "the factored matrix has a trivial kernel), with a concrete driven 3-port state meeting every hypothesis; the model is proved equal to the "
            "translated two-port functions at n = 2 for either pivot order; mathcomp theorems for all n at SPECIFICATION level "
            "(`*_spec_all_n`, K (A^-1 B) K^-1 written with invmx) for stozn/stoyn/ztosn/ytosn; independent relation oracles search "
            "for failing inputs."),
   "design_ref": "DESIGN.md section 4 C04 and section 9; docs/design_C04.md",
   "note": ("Trusted: Coq kernel (+vm_compute), translator conv2.py (validated per run), the reading of vnaconv(3) in "
            "Conv/ConvRel.v (two ports) and Conv/ConvNModel.v relSn/relZn/relYn (n ports), exact arithmetic in place of binary64 "
-           "(rounding outside every theorem). Partial: the three n-port *zin functions have n = 2 theorems (ytozin none) and "
-           "correspondence only; the nine two-port *tozi theorems carry, for X <> S, the extra premise Xtos_ok (denominators of "
+           "(rounding outside every theorem). Partial: ytozin has no separate n = 2 equality theorem (its all-n theorem applies); the nine two-port *tozi theorems carry, for X <> S, the extra premise Xtos_ok (denominators of "
            "vnaconv_Xtos), wider than the singular set of vnaconv_Xtozi itself; the n = 2 model = two-port theorems are stated for "
            "the two constant comparators with an explicit pivot hypothesis (shown satisfiable; that the real comparator meets a "
            "nonzero pivot is C19's c19_pivots_nonzero_iff_nonsingular, not composed at n = 2); the mathcomp specification and "
